@@ -52,6 +52,8 @@ def _solve(ctx, fn, *a, **k):
 
 def xor_instance(rng, r):
     x, y = int(rng.integers(1, 5)), int(rng.integers(1, 5))
+    if (r // 4) % 3 == 2:  # larger dense games: every probability is small
+        x, y = int(rng.integers(4, 7)), int(rng.integers(4, 7))
     kind = r % 4
     if kind == 0:
         prob = np.full((x, y), 1.0 / (x * y))
@@ -83,7 +85,8 @@ def _run_xor(ctx, spec, rng):
     else:
         prob, pred, kind = xor_instance(rng, spec[1])
     x, y = prob.shape
-    tol_arg = None if spec[1] % 2 else 1e-9
+    # the validity tolerance of the game object: defaulted, tiny, and of ordinary size (values of a valid game do not depend on it)
+    tol_arg = [1e-9, None, 1e-4, None, 1e-6, None][spec[1] % 6]
     game = ctx.call(XORGame, prob.copy(), pred.copy(), 1, tol_arg)
     if game is FAILED:
         return
